@@ -62,6 +62,12 @@ NEEDS = {
  "C17c_2": ("C17", "forwarded attributes dropped on field-less InstantiateMsg / MigrateMsg", "an instantiate or migrate handler without arguments plus sv::msg_attr for that kind"),
  "C20c_1": ("C20", "decoding a Remote lower-cases the address", "an address containing an upper-case character"),
  "C20c_2": ("C20", "schema_name derived from type_name with rsplit_once('<')", "a type parameter written with angle brackets (generic contract, dyn Interface<Error = E>)"),
+ "C02d_1": ("C02", "the bridged custom(msg) arm turns the handler's error into StdError::generic_err(err.to_string()) before converting", "a bridged exec/sudo handler returning a non-Std error (the Err path of the bridged arm does not finish under CBMC: outside the covered cells)"),
+ "C02d_2": ("C02", "From<(Deps, Env)> for QueryCtx sets env.transaction to None", "a query whose caller's Env has transaction: Some(..), and a handler that reads it"),
+ "C07d_1": ("C07", "the always arm moves events and msg_responses into the ReplyCtx and rebuilds `result` from what is left", "an always handler, a successful sub-message carrying events, and a handler that reads them from `result`"),
+ "C07d_2": ("C07", "the uncovered-failure arm returns generic_err(format!(\"Reply id {} failed: {}.\")) instead of generic_err(error)", "a failed result under an id that has only a success method (the error TEXT is not observable in the harnesses: error text is stubbed)"),
+ "C09d_1": ("C09", "typed modes accept bare JSON when the envelope is malformed", "a typed execute mode and data that is valid JSON but not an envelope (typed cells: CBMC does not finish)"),
+ "C09d_2": ("C09", "JSON-level decode failure panics when env.transaction is None", "typed mode, well-formed envelope whose inner JSON does not decode, env.transaction == None (reaches from_json: uncovered)"),
  "C20_2": ("C20", "Remote.addr deserialised as a borrowed &'de str: owned strings (escapes) are rejected", "an address containing a character that JSON escapes; at the serde data-model level: any format handing out non-borrowed strings"),
 }
 
@@ -69,7 +75,7 @@ def main():
     val = {}
     for f in glob.glob(os.path.join(HERE, ".build", "validate_seeds.log")) + glob.glob(os.path.join(HERE, ".build", "seed_queue*.log")):
         for line in open(f):
-            m = re.match(r"(C\d\d[bc]?_\d): demo_on_pristine_exit=(\d+) demo_with_patch_exit=(\d+) suite_with_patch_exit=(\d+)", line)
+            m = re.match(r"(C\d\d[bcd]?_\d): demo_on_pristine_exit=(\d+) demo_with_patch_exit=(\d+) suite_with_patch_exit=(\d+)", line)
             if m:
                 val[m.group(1)] = dict(demo_on_unchanged_tree="passes" if m.group(2) == "0" else "FAILS", demo_with_change="fails" if m.group(3) != "0" else "PASSES",
                                        existing_suite_with_change="passes" if m.group(4) == "0" else "FAILS")
@@ -78,7 +84,7 @@ def main():
         if not os.path.exists(f):
             continue
         for line in open(f):
-            m = re.match(r"(C\d\d[bc]?_\d) (C\d\d) exit=(\d+) (\d+) violation-lines; (.*)", line)
+            m = re.match(r"(C\d\d[bcd]?_\d) (C\d\d) exit=(\d+) (\d+) violation-lines; (.*)", line)
             if m:
                 det.setdefault(m.group(1), {})[m.group(2)] = dict(check_exit=int(m.group(3)), violation_lines=int(m.group(4)), summary=m.group(5).strip()[:200])
     for sid, (prop, what, needs) in sorted(NEEDS.items()):
